@@ -3,7 +3,7 @@ import glob, json, os, re
 from vlib import VERIF, REPO, load_known, read_ndjson, write_ndjson, pmap, Infra, NCPU
 
 ASSUME = [
-    "layout transformations are implemented on patch text in lib/prop_c13.py (T1 comment lines, T2 blank lines, T3 naming the change, T4 renaming metavariables that do not name imports, T5 regrouping/reordering/;-joining declarations, T6 re-spacing both sides identically, T7 context line <-> identical -/+ pair on elision-free lines, T8 context line without its space prefix, T9 context line wrapped after its commas)",
+    "layout transformations are implemented on patch text in lib/prop_c13.py (T1 comment lines, T2 blank lines, T3 naming the change, T4 renaming metavariables that do not name imports, T5 regrouping/reordering/;-joining declarations, T6 re-spacing both sides identically, T7 context line <-> identical -/+ pair on elision-free lines, T8 context line without its space prefix, T9 context line wrapped after its commas, T10 an empty line written as a lone '-' / '+' pair)",
     "results are compared as terms of harness/alpha.go (syntax trees without positions and comments); errors are compared as error / no error",
     "patches with more than one '...' per side are not re-spaced (their association is documented as layout dependent, README known issue #9)",
 ]
@@ -322,7 +322,26 @@ def t9_rewrap(lines, changes, rng):
     return out if did else None
 
 
-TRANSFORMS = {"T9": t9_rewrap, "T8": t8_unprefix, "T1": t1_comments, "T2": t2_blank, "T3": t3_name, "T4": t4_rename, "T5": t5_regroup, "T6": t6_respace, "T7": t7_pair}
+def t10_marker_blank(lines, changes, rng):
+    """A blank line of the Go code may be written as a lone '-' / '+' pair (an empty line on both sides)."""
+    out = list(lines)
+    did = False
+    for c in reversed(changes):
+        body = [i for i in c["body"] if out[i].strip()]
+        if len(body) < 2:
+            continue
+        i = rng.choice(body[1:])
+        # not inside a run of '-' / '+' lines (the pair would split the run), not next to an elision line
+        if out[i][:1] in "+-" and out[i - 1][:1] in "+-":
+            continue
+        if "..." in out[i] or "..." in out[i - 1] or any(q in out[i] + out[i - 1] for q in "`"):
+            continue
+        out[i:i] = ["-", "+"]
+        did = True
+    return out if did else None
+
+
+TRANSFORMS = {"T10": t10_marker_blank, "T9": t9_rewrap, "T8": t8_unprefix, "T1": t1_comments, "T2": t2_blank, "T3": t3_name, "T4": t4_rename, "T5": t5_regroup, "T6": t6_respace, "T7": t7_pair}
 
 
 def variants(ctx, text, n):
